@@ -61,7 +61,7 @@ type Sched struct {
 	byGoid   map[uint64]*Thread
 	ctrl     uint64
 	Held     int // shim mutexes currently held (by anybody)
-	unknown  int
+	unknown  map[string]int
 	objOrd   map[any]int
 	PermHook func(site string, n int) []int // map-order decisions outside Point (nil = sorted)
 	MapSites func(site string) bool         // which MapRange sites are choice points under the scheduler
@@ -74,7 +74,7 @@ func Cur() *Sched { return cur.Load() }
 
 // NewSched creates a scheduler whose controller is the calling goroutine.
 func NewSched() *Sched {
-	return &Sched{byGoid: map[uint64]*Thread{}, ctrl: goid(), objOrd: map[any]int{}}
+	return &Sched{byGoid: map[uint64]*Thread{}, ctrl: goid(), objOrd: map[any]int{}, unknown: map[string]int{}}
 }
 
 func (s *Sched) Attach() { cur.Store(s) }
@@ -138,8 +138,14 @@ func (s *Sched) register(g uint64, op *Op) *Thread {
 		t.Key = pt.Key + "." + strconv.Itoa(pt.kids)
 		pt.kids++
 	} else {
-		t.Key = "u:" + t.Label + "." + strconv.Itoa(s.unknown)
-		s.unknown++
+		// spawned by the controller (harness threads) or by an unmanaged goroutine:
+		// keyed by the label of the first operation, counted per label
+		pre := "u:"
+		if parent == s.ctrl {
+			pre = "c:"
+		}
+		t.Key = pre + t.Label + "." + strconv.Itoa(s.unknown[t.Label])
+		s.unknown[t.Label]++
 	}
 	s.byGoid[g] = t
 	s.newReg = append(s.newReg, t)
@@ -307,7 +313,13 @@ func Perm(n, idx int) []int {
 // ---------------------------------------------------------------------------
 // goroutine identity
 
+// GoidFunc, when set (harness start-up), replaces the runtime.Stack based goroutine id lookup.
+var GoidFunc func() uint64
+
 func goid() uint64 {
+	if f := GoidFunc; f != nil {
+		return f()
+	}
 	var buf [64]byte
 	n := runtime.Stack(buf[:], false)
 	// "goroutine 123 ["
@@ -323,8 +335,10 @@ func goid() uint64 {
 // Goid is exported for the harness.
 func Goid() uint64 { return goid() }
 
+var stackBuf = make([]byte, 1<<16) // only used under Sched.Mu
+
 func creatorGoid() uint64 {
-	buf := make([]byte, 1<<16)
+	buf := stackBuf
 	n := runtime.Stack(buf, false)
 	b := buf[:n]
 	i := bytes.LastIndex(b, []byte("created by "))
